@@ -250,66 +250,71 @@ def sink_string_rules(ctx, prog, rule="C16.G4"):
             ctx.ob(rule, "sink_string [ok, string was %s]" % init, "on success the caller's pointer is the one new block and the old one "
                    "is gone", rv == fs(0) and len(live) == 1 and cur == fs(live[0]), {"returns": show(rv), "*string": show(cur)}, nontrivial=True)
     ctx.floor(rule, 4)
-    # --- sizes: allocation >= offset + copied + terminator (linear forms)
-    env = {}
-    for n in F.walk():
-        if n["k"] == "VarDecl" and n["name"] == "string_size" and n.get("c"):
-            init = strip(n["c"][0])
-            if init["k"] == "ConditionalOperator":
-                # NULL ? 0 : strlen(*string)  -> use the non-null arm (the null arm is the special case 0)
-                env["string_size"] = L.lin(init["c"][2]) or {"strlen": 1}
-                zero_arm = L.lin(init["c"][1])
-                ctx.ob(rule + "z", "sink_string: string_size", "a NULL string counts as length 0", zero_arm == {} or zero_arm == {1: 0},
-                       {"null_arm": L.show(zero_arm)})
-    re = [n for n in F.calls("realloc")]
-    mc = [n for n in F.calls("memcpy")]
-    if len(re) != 1 or len(mc) != 1:
-        raise AnalysisBroken("sink_string: expected one realloc and one memcpy")
-    alloc = L.lin(re[0]["c"][2])
-    dest = strip(mc[0]["c"][1])
-    off = None
-    if dest["k"] == "BinaryOperator" and dest["op"] == "+":
-        off = L.lin(dest["c"][1])
-    ln = L.lin(mc[0]["c"][3])
-    ctx.ob(rule + "s", "sink_string: realloc vs memcpy", "the block is at least as large as offset + bytes copied + 1 (terminator)",
-           alloc is not None and off is not None and ln is not None and L.geq(alloc, L.add(L.add(off, ln), {1: 1})),
-           {"alloc": L.show(alloc), "offset": L.show(off), "copied": L.show(ln)}, nontrivial=True)
-    # the offset is one variable whose every definition is 0 (no string yet) or strlen() of the caller's current string
-    offvar = None
-    if off is not None and len(off) == 1 and list(off.values()) == [1] and isinstance(list(off)[0], str):
-        offvar = list(off)[0]
-    defs = []
-    for n in F.walk():
-        if n["k"] == "VarDecl" and n["name"] == offvar and n.get("c"):
-            defs.append(strip(n["c"][0]))
-        elif n["k"] in ("BinaryOperator", "CompoundAssignOperator") and n.get("op", "").endswith("=") and n["op"] not in ("==", "!=", "<=", ">=") \
-                and expr_str(strip(n["c"][0])) == offvar:
-            defs.append(strip(n["c"][1]) if n["op"] == "=" else n)
+    # --- sizes and offsets, evaluated through the code for three (old length, chunk size) pairs: the arithmetic is linear, so
+    # what holds for these holds in general unless the code special-cases a value - and every path is followed
+    from ..models import new_mem
+    for L_, S_ in ((None, 4), (5, 3), (16, 1)):
+        log = []
 
-    def len_expr(x):
-        x = strip(x)
-        if x["k"] == "ConditionalOperator":
-            return len_expr(x["c"][1]) and len_expr(x["c"][2])
-        if x.get("val") == 0 and x["k"] == "IntegerLiteral":
-            return True
-        if x["k"] == "CallExpr" and x.get("callee") == "strlen":
-            a = strip(x["c"][1])
-            return a["k"] == "UnaryOperator" and a["op"] == "*" and strip(a["c"][0])["k"] == "DeclRefExpr"
-        return False
-    ctx.ob(rule + "s", "sink_string: offset", "new data is appended right after the existing content: the offset is a variable that is only "
-           "ever 0 (no string yet) or strlen() of the caller's string as it is now - not a length remembered from an earlier call - and "
-           "exactly `size` bytes from `buffer` are copied", offvar is not None and defs and all(len_expr(d) for d in defs)
-           and ln == {"size": 1} and expr_str(mc[0]["c"][2]) == "buffer",
-           {"offset": L.show(off), "definitions": [expr_str(d)[:60] for d in defs], "copied": L.show(ln), "source": expr_str(mc[0]["c"][2])})
-    # terminator index
-    term = [n for n in F.walk() if n["k"] == "BinaryOperator" and n["op"] == "=" and strip(n["c"][0])["k"] == "ArraySubscriptExpr"
-            and strip(n["c"][1]).get("val") == 0]
-    if len(term) != 1:
-        raise AnalysisBroken("sink_string: expected one terminator store")
-    idx = L.lin(strip(term[0]["c"][0])["c"][1])
-    ctx.ob(rule + "s", "sink_string: terminator", "the NUL terminator is stored at offset + copied, inside the block",
-           idx is not None and off is not None and ln is not None and idx == L.add(off, ln) and L.geq(alloc, L.add(idx, {1: 1})),
-           {"index": L.show(idx), "alloc": L.show(alloc)}, nontrivial=True)
+        def m_strlen(I_, fn, n, args, st):
+            log.append(("strlen", args[0]))
+            return [(st, fs(L_ if L_ is not None else 0))]
+
+        def m_realloc(I_, fn, n, args, st):
+            s2, t2 = new_mem(I_, fn, n, st)
+            for a_ in args[0]:
+                if isinstance(a_, tuple) and a_[0] == "mem":
+                    s2.res[a_] = ("moved",)
+            log.append(("realloc", args[0], args[1], t2))
+            return [(s2, fs(t2))]
+
+        def m_memcpy(I_, fn, n, args, st):
+            log.append(("memcpy", args[0], args[1], args[2]))
+            return [(st, args[0])]
+        I2 = new_interp(prog, extra_models={"strlen": m_strlen, "realloc": m_realloc, "memcpy": m_memcpy})
+        I2.widen = False
+        Lv = L_ or 0
+        I2.K = sorted(set(I2.K) | {Lv, S_, Lv + S_, Lv + S_ + 1})
+        I2.Kset = set(I2.K)
+        I2.TOP_INT = frozenset(I2.K) | {"NEG", "POS"}
+        st = State()
+        old = ("mem", "user", 0)
+        st.mem[p["context"]] = fs(("addr", cellS))
+        if L_ is None:
+            st.mem[cellS] = fs("NULL")
+        else:
+            st.mem[cellS] = fs(old)
+            st.res[old] = ("live",)
+        st.mem[p["size"]] = fs(S_)
+        st.mem[p["buffer"]] = fs(("str", "<chunk>"))
+        res2 = I2.run(F, [st])
+        re_ = [x for x in log if x[0] == "realloc"]
+        mc_ = [x for x in log if x[0] == "memcpy"]
+        sl_ = [x for x in log if x[0] == "strlen"]
+        stores = [(e[3][0], e[3][1]) for e in res2.events if e[0] == "store-heap"]
+        case = "old string %s, chunk of %d bytes" % ("NULL" if L_ is None else "of length %d" % L_, S_)
+        want_ptr = fs("NULL") if L_ is None else fs(old)
+        ok_len = all(x[1] == fs(old) for x in sl_) and (L_ is None or len(sl_) >= 1)
+        ok_re = len(re_) == 1 and re_[0][1] == want_ptr and len(re_[0][2]) == 1 and is_int_(one_(re_[0][2])) and one_(re_[0][2]) >= Lv + S_ + 1
+        newt = re_[0][3] if re_ else None
+        ok_mc = len(mc_) == 1 and newt is not None and mc_[0][1] in (fs(("addr", ("i", ("heap", newt), Lv))),) + ((fs(newt),) if Lv == 0 else ()) \
+            and mc_[0][2] == fs(("str", "<chunk>")) and mc_[0][3] == fs(S_)
+        term = [c for c, v in stores if newt is not None and c == ("i", ("heap", newt), Lv + S_) and v == fs(0)]
+        beyond = [c for c, v in stores if newt is not None and c[0] == "i" and c[1] == ("heap", newt) and (not is_int_(c[2]) or c[2] > Lv + S_)]
+        ctx.ob(rule + "s", "sink_string [%s]" % case, "the old length is strlen() of the caller's current string (0 for none), the block is "
+               "re-sized to at least length + chunk + 1, exactly the chunk is copied from the buffer to offset = old length, and the NUL "
+               "goes to offset + chunk - nothing is written beyond", ok_len and ok_re and ok_mc and len(term) == 1 and not beyond,
+               {"strlen_of": [show(x[1]) for x in sl_], "realloc": [(show(x[1]), show(x[2])) for x in re_],
+                "memcpy": [(show(x[1])[:70], show(x[2]), show(x[3])) for x in mc_], "stores": [(str(c), show(v)) for c, v in stores][:4]},
+               nontrivial=True)
+
+
+def is_int_(x):
+    return isinstance(x, int) and not isinstance(x, bool)
+
+
+def one_(v):
+    return next(iter(v)) if v is not None and len(v) == 1 else None
 
 
 def run_ex_rules(ctx, prog, rule="C16.G5"):
